@@ -425,6 +425,7 @@ func Run(r *fw.Run) {
 	fw.Explore(r, "owner-labels/orders", fw.Full, func(c *fw.Ctx) Case {
 		vi := c.Choose(len(variants)+1, "variant (last = negative control: same owner name in two namespaces)")
 		k := fw.Pick(c, []int{0, 1, 3}, "other pods")
+		extraOwners := c.Choose(2, "ownerReferences: the controller only | two non-controller references (controller: false, field omitted) listed first")
 		var docs []*resource.Info
 		var expect []string
 		if vi == len(variants) {
@@ -438,12 +439,17 @@ func Run(r *fw.Run) {
 		for i := 0; i < k; i++ {
 			docs = append(docs, wm.InfoPod("ns1", fmt.Sprintf("other-%d", i), fmt.Sprintf("rs-other-%d", i%2), map[string]string{"app": "o"}, nil))
 		}
+		if extraOwners == 1 {
+			for _, d := range docs {
+				wm.AddExtraOwners(d, "rs1")
+			}
+		}
 		infos, after, sn := surroundings(c)
 		p := permFromChoices(c, len(docs))
 		for _, i := range p {
 			infos = append(infos, docs[i])
 		}
 		infos = append(infos, after...)
-		return Case{Infos: infos, Expect: expect, Desc: fmt.Sprintf("owner-labels variant=%d others=%d order=%v surroundings=%s", vi, k, p, sn), Exposure: true}
+		return Case{Infos: infos, Expect: expect, Desc: fmt.Sprintf("owner-labels variant=%d others=%d extra-owners=%d order=%v surroundings=%s", vi, k, extraOwners, p, sn), Exposure: true}
 	}, eval)
 }
